@@ -619,7 +619,9 @@ def canon(v):
         n = tofloat(v.length) if not isinstance(v.length, int) else v.length
         return [canon(v.elem(j)) for j in range(int(n))]
     if type(v).__name__ == 'NDArr':
-        return ('ndarray', v.to_numpy(_CANON_E[0]).tolist())
+        a = v.to_numpy(_CANON_E[0])
+        # 1-d arrays are lifted from the real code as plain vectors (Realizer.lift): same canonical form
+        return a.tolist() if a.ndim == 1 else ('ndarray', a.tolist())
     return v
 
 
@@ -703,8 +705,16 @@ def run_property(mod, prop, tier, seed, jobs):
         if r['error']:
             errors.append({'negative_control': nm, 'error': r['error']})
         elif not failed:
-            errors.append({'negative_control': nm, 'error': 'negative control passed: a deliberately broken source/contract was not refuted',
-                           'statuses': [o['status'] + ':' + o.get('reason', '')[:80] for o in r['obligations']][:6]})
+            und = [o for o in r['obligations'] if o['status'] == 'undecided']
+            if und:
+                # the broken source was not ACCEPTED (nothing it breaks was discharged), the solver just did not produce the
+                # refutation within the control's short budget: recorded as inconclusive, not as a passed control
+                neg[nm] = {'inconclusive': f"{len(und)} obligation(s) undecided within the control budget: {und[0].get('reason', '')[:80]}"}
+            else:
+                errors.append({'negative_control': nm, 'error': 'negative control passed: a deliberately broken source/contract was not refuted',
+                               'statuses': [o['status'] + ':' + o.get('reason', '')[:80] for o in r['obligations']][:6]})
+    if any('skipped' not in v for v in neg.values()) and not any(v.get('failed_obligations') for v in neg.values()):
+        errors.append({'negative_controls': 'no negative control of this module was refuted in this run', 'detail': neg})
     cc_out = {'compared': sum(c['compared'] for c in cc), 'skipped': [c['contract'] + ':' + c.get('skipped', '') for c in cc if c.get('skipped')][:5]}
     for c in cc:
         if c['mismatch']:
